@@ -500,8 +500,8 @@ func c14Event(x *vmc.X, c c14cfg) {
 	s := vmc.NewSched(x)
 	on := false
 	vsync.Hook = func(addr any, op string) {
-		if on && op == "lock" {
-			s.Point("lock")
+		if on && (op == "lock" || op == "wg-wake") {
+			s.Point(op)
 		}
 	}
 	defer func() { vsync.Hook = nil }()
